@@ -66,7 +66,8 @@ Definition range17 (c : case17x) : xrange :=
          x_flags := Some (N.lor MAP_ANONYMOUS MAP_PRIVATE); x_addr := cx_gbase c; x_mflags := 0; x_mdata := 0 |}
   | k => (* MmapRange::new(size, Some(FileOffset(dev, 0)), addr, mmap_flags, 0) :90-107 *)
       {| x_size := cx_size c; x_file := Some 0; x_prot := None; x_flags := None; x_addr := cx_gbase c;
-         x_mflags := match k with 1 => 1 | 2 => 2 | _ => 10 end; x_mdata := 0 |}
+         x_mflags := match k with 1 => 1 | 2 => 2 | _ => 10 end;
+         x_mdata := case_domid (cx_gbase c) (cx_page c) |}
   end.
 
 Definition dev_evs (l : list ev) : list dev_ev :=
@@ -111,12 +112,41 @@ Definition run_C17x (c : case17x) (ops : list xop) : obs17x :=
   | _ => {| ox_built := 0; ox_ops := []; ox_mapped_alive := 0; ox_mapped_end := 0; ox_live_end := 0 |}
   end.
 
+(* the reference list GntDevMapGrantRef::new (xen.rs:732-745, Impl/Xen.v gnt_refs_new) builds for a request of
+   `c` grants from `g` on: (domid, g + i) - C17_grant_refs_loop; every map request of the model's log is followed by it *)
+Definition named_refs (domid g c : N) : list (N * N) :=
+  map (fun i => (domid, g + N.of_nat i)) (seq 0 (N.to_nat c)).
+Fixpoint add_refs (domid : N) (evs : list dev_ev) {struct evs} : list dev_ev :=
+  match evs with
+  | [] => []
+  | DMap g c i :: r => DMap g c i :: DRefs (named_refs domid g c) :: add_refs domid r
+  | e :: r => e :: add_refs domid r
+  end.
+Definition add_refs_op (domid : N) (p : opobs) : opobs :=
+  {| p_r := p_r p; p_data := p_data p; p_live := p_live p; p_evs := add_refs domid (p_evs p) |}.
+Definition add_refs_obs (domid : N) (o : obs17x) : obs17x :=
+  {| ox_built := ox_built o; ox_ops := map (add_refs_op domid) (ox_ops o); ox_mapped_alive := ox_mapped_alive o;
+     ox_mapped_end := ox_mapped_end o; ox_live_end := ox_live_end o |}.
+Definition run_C17xn (c : case17x) (ops : list xop) : obs17x :=
+  add_refs_obs (case_domid (cx_gbase c) (cx_page c)) (run_C17x c ops).
+
 Definition enc_ev (e : dev_ev) : list N :=
-  match e with DMap g c i => [1; g; c; i] | DUnmap i c => [2; i; c] end.
+  match e with
+  | DMap g c i => [1; g; c; i] | DUnmap i c => [2; i; c]
+  | DRefs l => 3 :: N.of_nat (length l) :: flat_map (fun x => [fst x; snd x]) l
+  end.
 Definition enc_op (o : opobs) : tok := TL (p_r o :: p_data o :: p_live o :: flat_map enc_ev (p_evs o)).
 Definition enc17x (o : obs17x) : list tok :=
   TN (ox_built o) :: map enc_op (ox_ops o) ++ [TN (ox_mapped_alive o); TN (ox_mapped_end o); TN (ox_live_end o)].
 
+(* n pairs d r off the front *)
+Fixpoint take_pairs (n : nat) (l : list N) {struct n} : option (list (N * N) * list N) :=
+  match n with
+  | O => Some ([], l)
+  | S k => match l with
+           | d :: r :: t => match take_pairs k t with Some (ps, rest) => Some ((d, r) :: ps, rest) | None => None end
+           | _ => None end
+  end.
 Fixpoint dec_evs (fuel : nat) (l : list N) {struct fuel} : option (list dev_ev) :=
   match fuel with
   | O => None
@@ -125,6 +155,11 @@ Fixpoint dec_evs (fuel : nat) (l : list N) {struct fuel} : option (list dev_ev) 
       | [] => Some []
       | 1 :: g :: c :: i :: r => match dec_evs f r with Some es => Some (DMap g c i :: es) | None => None end
       | 2 :: i :: c :: r => match dec_evs f r with Some es => Some (DUnmap i c :: es) | None => None end
+      | 3 :: n :: r =>
+          if 4096 <? n then None else
+          match take_pairs (N.to_nat n) r with
+          | Some (ps, r') => match dec_evs f r' with Some es => Some (DRefs ps :: es) | None => None end
+          | None => None end
       | _ => None
       end
   end.
@@ -165,10 +200,94 @@ Definition suite_C17xen (inp obs : list tok) : verdict :=
                             cx_size := size; cx_gbase := gbase; cx_page := page; cx_ops := xs |} in
                 let o := {| ox_built := built; ox_ops := oobs; ox_mapped_alive := alive;
                             ox_mapped_end := mend; ox_live_end := lend |} in
-                {| v_model := enc17x (run_C17x c ops); v_ok := ok_C17x c o; v_wellformed := true |}
+                {| v_model := enc17x (run_C17xn c ops); v_ok := ok_C17xn c o; v_wellformed := true |}
               else malformed
           | _, _ => malformed end
       | _, _ => malformed end
   | _, _ => malformed end.
 
 Definition suite_C17xenfind (inp obs : list tok) : verdict := suite_C17xen inp obs.
+
+(* ------------------------------------------------------------------ xen build: derivation chains
+   C17xenchain  case: mode rkind size gbase page [root] [step]* [final]      (each list: code a b c, see Spec/C17.v)
+                obs:  built [r,data,live,ev*] mapped_alive mapped_end live_end   (the format of a one-operation history) *)
+Definition root_of (k : cstep) : option droot :=
+  let a := k_a k in let b := k_b k in let c := k_c k in
+  match k_code k with
+  | 0 | 1 => Some (RGetSlice a b)
+  | 2 | 5 => Some RAsVS
+  | 3 => if b =? 0 then None else Some (RGetRef a b)
+  | 4 => if b =? 0 then None else Some (RGetArr a b c)
+  | _ => None end.
+Definition step_of (k : cstep) : option dstep :=
+  let a := k_a k in let b := k_b k in let c := k_c k in
+  match k_code k with
+  | 0 => Some (DSubslice a b) | 1 => Some (DOffset a) | 2 => Some (DSplitLo a) | 3 => Some (DSplitHi a)
+  | 4 => Some (DGetSlice a b)
+  | 5 => if b =? 0 then None else Some (DGetRef a b)
+  | 6 => if b =? 0 then None else Some (DGetArr a b c)
+  | 7 => Some DAsVS | 8 => Some DIntoArr | 9 | 10 => Some DClone | 11 => Some DToSlice | 12 => Some (DRefAt a)
+  | _ => None end.
+Definition final_of (k : cstep) : option dfinal :=
+  match k_code k with
+  | 0 => Some (FGuard false) | 1 => Some (FGuard true) | 2 => Some (FBytes false) | 3 => Some (FBytes true)
+  | 4 => Some (FElem (k_a k) false) | 5 => Some (FElem (k_a k) true)
+  | _ => None end.
+
+Definition region17 (c : case17x) : option xregion :=
+  match xen_from_range (cx_mode c) (os17 c) (range17 c) with
+  | Val (Ok g, _) => Some g
+  | _ => None end.
+
+(* a derivation that panics (ref_at past the end, ...) is an operation that panics before any guard is taken:
+   the observation of an operation refused with Err, with the result code of a panic *)
+Definition as_panic (o : obs17x) : obs17x :=
+  {| ox_built := ox_built o;
+     ox_ops := map (fun p => {| p_r := 2; p_data := p_data p; p_live := p_live p; p_evs := p_evs p |}) (ox_ops o);
+     ox_mapped_alive := ox_mapped_alive o; ox_mapped_end := ox_mapped_end o; ox_live_end := ox_live_end o |}.
+
+Definition run_C17c (c : case17c) (r : droot) (l : list dstep) (f : dfinal) : obs17x :=
+  let cx := case17x_of c in
+  match region17 cx with
+  | Some g =>
+      match chain_op (cc_mode c) g r l f with
+      | Val op => run_C17xn cx [op]
+      | _ => as_panic (run_C17xn cx [err_xop g])
+      end
+  | None => run_C17xn cx []
+  end.
+
+Definition dec_cstep (t : tok) : option cstep :=
+  match t with
+  | TL [code; a; b; c] => Some {| k_code := code; k_a := a; k_b := b; k_c := c |}
+  | _ => None end.
+(* root :: steps ++ [final] *)
+Fixpoint split_last {A} (l : list A) {struct l} : option (list A * A) :=
+  match l with
+  | [] => None
+  | [x] => Some ([], x)
+  | x :: r => match split_last r with Some (i, z) => Some (x :: i, z) | None => None end
+  end.
+
+Definition suite_C17xenchain (inp obs : list tok) : verdict :=
+  match inp, obs with
+  | TN md :: TN rkind :: TN size :: TN gbase :: TN page :: troot :: trest, TN built :: rest =>
+      match dec_cstep troot, map_opt dec_cstep trest, split_tail rest with
+      | Some kr, Some ks, Some (oo, (alive, mend, lend)) =>
+          match split_last ks, map_opt dec_op oo with
+          | Some (ksteps, kf), Some oobs =>
+              match root_of kr, map_opt step_of ksteps, final_of kf with
+              | Some r, Some l, Some f =>
+                  if (rkind <? 4) && (size <? 4294967296) && (gbase <? 1099511627776) && (page =? 4096)
+                     && (gbase mod page =? 0) then
+                    let c := {| cc_mode := if md =? 0 then Debug else Release; cc_rkind := rkind;
+                                cc_size := size; cc_gbase := gbase; cc_page := page;
+                                cc_root := kr; cc_steps := ksteps; cc_final := kf |} in
+                    let o := {| ox_built := built; ox_ops := oobs; ox_mapped_alive := alive;
+                                ox_mapped_end := mend; ox_live_end := lend |} in
+                    {| v_model := enc17x (run_C17c c r l f); v_ok := ok_C17c c o; v_wellformed := true |}
+                  else malformed
+              | _, _, _ => malformed end
+          | _, _ => malformed end
+      | _, _, _ => malformed end
+  | _, _ => malformed end.
